@@ -447,9 +447,11 @@ def relaxed_container_visit(c, cls: str) -> None:
     c.paths()
     c.returns("ValidationResult")
     c.raises()
-    c.ex.used_assumptions.add("SubstitutorValidator (relaxed validation of list / dict / any / alias values) is an ASSUMED "
-                              "contract: verdict = uninterpreted rvalid(schema, value); a passing list value is a list within "
-                              "the declared lengths, a passing dict value is a dict")
+    c.ex.used_assumptions.add("SubstitutorValidator (relaxed validation of list / dict / any / alias values): the verdict is "
+                              "named by the uninterpreted rvalid(schema, value) (a pure function of its arguments); proved against "
+                              "the overrides' bodies: no exception, a passing list value is a list within the declared lengths, a "
+                              "passing dict value is a dict; ASSUMED: an exact element list admits only values of its length, and "
+                              "what the verdict says about members")
     c.ensures("result", lambda r, post: z3.And(*S.is_result(ct, r)))
     c.ensures("verdict", lambda r, post: S.no_errors(r) == rvalid(Sx, v))
     c.ensures("errors-wf", lambda r, post: errs_alloc(S.errors_of(r), post.alloc))
@@ -690,8 +692,56 @@ def _inv_any(L):
                   _path_fixed(L))
 
 
-# the two overriding methods of the relaxed validator: assumed contracts (see rvalid)
+# the two overriding methods of the relaxed validator.  At call sites: the assumed contract (verdict named rvalid).
+# Verified against their bodies: exception freedom and the shape consequences of a passing verdict that do not depend
+# on the members (the first two rvalid axioms); the exact-count axiom and the verdict of the members stay assumed.
+def relaxed_override(cls: str):
+    def body(c):
+        if c.mode == "call":
+            return relaxed_container_visit(c, cls)
+        ct = c.ct
+        c.built_self("SubstitutorValidator")
+        Sx = c.sym("schema", cls)
+        v = c.sym("value")
+        p = c.sym("path", "PathHolder")
+        c.kwargs()
+        for f in S.wf_def(ct, cls, Sx):
+            c.requires(f)
+        c.requires(S.path_ok(ct, p, c.pre_alloc), "path")
+        c.requires(S.deep_range(v), "float-repr")
+        c.paths()
+        c.returns("ValidationResult")
+        c.raises(props=("C12", "C08"))
+        c.ensures("result", lambda r, post: z3.And(*S.is_result(ct, r)), ("C12",))
+        if cls == "ListSchema":
+            n = M.llen(v)
+            ln, mn, mx = S.prop(Sx, "len"), S.prop(Sx, "min_len"), S.prop(Sx, "max_len")
+            c.ensures("a-passing-value-is-a-list-within-the-declared-lengths", lambda r, post: z3.Implies(S.no_errors(r), z3.And(
+                M.isinstance_f(ct, v, "list"), z3.Implies(ln != M.NilV, n == M.int_of(ln)),
+                z3.Implies(mn != M.NilV, n >= M.int_of(mn)), z3.Implies(mx != M.NilV, n <= M.int_of(mx)))), ("C12", "C04", "C05"))
+        else:
+            c.ensures("a-passing-value-is-a-dict", lambda r, post: z3.Implies(S.no_errors(r), M.isinstance_f(ct, v, "dict")),
+                      ("C12", "C04", "C05"))
+        c.ensures("path-frame", lambda r, post: path_frame(post), ("C07",))
+    return body
+
+
 for _m, _cls in [("visit_list", "ListSchema"), ("visit_dict", "DictSchema")]:
-    contract("d42/substitution/_validator.py", f"SubstitutorValidator.{_m}", props=(), trusted=True,
-             note="assumed: verdict = uninterpreted rvalid(schema, value); raises nothing")(
-        (lambda cls_: (lambda c: relaxed_container_visit(c, cls_)))(_cls))
+    contract("d42/substitution/_validator.py", f"SubstitutorValidator.{_m}", props=("C12", "C04", "C05", "C07", "C08"),
+             group="substitutor")(relaxed_override(_cls))
+
+
+@invariant("d42/substitution/_validator.py", "SubstitutorValidator.visit_list", loop=0)
+def _inv_sv_list(L):
+    """L30: the errors list only grows; nothing the shape facts depend on is rebound"""
+    return z3.And(*[L.v(nm) == L.pre(nm) for nm in ("schema", "value", "path")])
+
+
+@invariant("d42/substitution/_validator.py", "SubstitutorValidator.visit_dict", loop=0)
+def _inv_sv_dict0(L):
+    return z3.And(*[L.v(nm) == L.pre(nm) for nm in ("schema", "value", "path")])
+
+
+@invariant("d42/substitution/_validator.py", "SubstitutorValidator.visit_dict", loop=1)
+def _inv_sv_dict1(L):
+    return z3.And(*[L.v(nm) == L.pre(nm) for nm in ("schema", "value", "path")])
